@@ -45,21 +45,50 @@ def rule_split(ctx, F, rule="R1", ST=ST, SK=SK, KF="mina_core::timeline::Keyfram
     frames_l = [i for i, t in lt.items() if t.startswith("alloc::vec::Vec<") and "SplitKeyframe" in t]
     imap_l = [i for i, t in lt.items() if t == "alloc::vec::Vec<usize>"]
 
+    # loop-carried state, by type: a havocked local of that type, or a field of that type of a havocked local struct
+    # (the accumulators may be separate locals or gathered in one private struct)
+    def field_ty(local_ty, name):
+        a = F.adts.get(local_ty.split("<")[0])
+        if not a or a["kind"] != "struct":
+            return None
+        for f in a["variants"][0]["fields"]:
+            if f["name"] == name:
+                return f["ty"]
+        return None
+
+    def carried_ty(x):
+        """type of the loop-carried component x denotes, or None"""
+        if x[0] == "loop" and x[2][0] == "local":
+            return x[2][2]
+        if x[0] == "field" and x[1][0] == "loop" and x[1][2][0] == "local":
+            return field_ty(x[1][2][2], x[2])
+        return None
+
     def lv(p, pred):
-        """loop variables (havocked at the header) whose local type satisfies pred"""
+        """loop-carried components (havocked at the header) whose type satisfies pred"""
         out = set()
         for x in subterms(tuple(e.get("descs", ()) for e in p.events if e["kind"] == "call") + (p.ret or (),)
                           + tuple(c[0] for c in p.conds)):
-            if x[0] == "loop" and x[2][0] == "local" and pred(x[2][2]):
+            t = carried_ty(x)
+            if t is not None and pred(t):
                 out.add(x)
         return out
 
-    # the loop-carried 'has data' flag: the bool loop variable the epilogue branches on
-    has_data_locals = set()
+    def final_of(p, x):
+        """value of the carried component x at the end of path p (None: untouched)"""
+        if x[0] == "loop":
+            return p.store.get(("L", 0, x[2][1]))
+        whole = p.store.get(("L", 0, x[1][2][1]))
+        if whole is None or whole == x[1]:
+            return None
+        return eng.read_loc(p, ("L", 0, x[1][2][1]), (("field", x[2]),))
+
+    # the loop-carried 'has data' flag: the bool component the epilogue branches on
+    has_data = set()
     for p in paths:
         for (t, v, s) in p.conds:
-            if t[0] == "loop" and t[2][0] == "local" and t[2][2] == "bool":
-                has_data_locals.add(t[2][1])
+            if carried_ty(t) == "bool":
+                has_data.add(t)
     kf_time = {f["ty"]: f["name"] for f in F.adt(KF)["variants"][0]["fields"]}
     n_body = n_epi = 0
     for p in paths:
@@ -103,9 +132,9 @@ def rule_split(ctx, F, rule="R1", ST=ST, SK=SK, KF="mina_core::timeline::Keyfram
                    "whether a frame is produced must be decided by the getter's result for this keyframe and nothing else "
                    "(the row does not branch on it)", body["span"], trace_of(p), what="frame-not-decided-by-getter")
             # the 'has data' flag may be raised only on the Some arm
-            for l in has_data_locals:
-                v = p.store.get(("L", 0, l))
-                raised = v is not None and v[0] != "loop"
+            for hd in has_data:
+                v = final_of(p, hd)
+                raised = v is not None and v != hd
                 ctx.ob(rule, lab + "/has-data-only-with-data", (not raised) or (gdec == 1 and v == pse.mk_bool(True)),
                        "the sub-timeline may be marked as having data only by a keyframe that defines the property "
                        "(flag becomes %s on a row with getter outcome %s)" % (show(v) if v else "-", gdec),
@@ -129,11 +158,7 @@ def rule_split(ctx, F, rule="R1", ST=ST, SK=SK, KF="mina_core::timeline::Keyfram
                            "force: its own easing if it has one, else the carried one); pushed %s" % show(e["descs"][1]),
                            body["span"], trace_of(p), what="data-frame-wrong")
                     # (b) the carried easing after the iteration
-                    fin = None
-                    for l in [i for i, t in lt.items() if t == "mina_core::easing::Easing"]:
-                        v = p.store.get(("L", 0, l))
-                        if v is not None and cur_easing_in is not None and cur_easing_in[2][1] == l:
-                            fin = v
+                    fin = final_of(p, cur_easing_in) if cur_easing_in is not None else None
                     if fin is not None:
                         okc = (fin == cur_easing_in) if kdec == 0 else pse.contains(fin, ke)
                         ctx.ob(rule, lab + "/easing-carry", okc,
@@ -148,9 +173,9 @@ def rule_split(ctx, F, rule="R1", ST=ST, SK=SK, KF="mina_core::timeline::Keyfram
                        "a keyframe that omits the property takes no part: no frame may be pushed", body["span"],
                        trace_of(p), what="frame-without-data")
                 # easing of keyframes that omit the property takes no part
-                for l in [i for i, t in lt.items() if t == "mina_core::easing::Easing"]:
-                    v = p.store.get(("L", 0, l))
-                    if v is not None and cur_easing_in is not None and cur_easing_in[2][1] == l:
+                if cur_easing_in is not None:
+                    v = final_of(p, cur_easing_in)
+                    if v is not None:
                         ctx.ob(rule, lab + "/easing-untouched", v == cur_easing_in,
                                "the easing of a keyframe that omits the property must not be carried over; carried "
                                "easing becomes %s" % show(v), body["span"], trace_of(p), what="easing-leaks")
@@ -186,7 +211,7 @@ def rule_split(ctx, F, rule="R1", ST=ST, SK=SK, KF="mina_core::timeline::Keyfram
             lab = "epilogue[%s]" % ",".join(str(v) for (_, v, _) in p.conds[1:])
             r = p.ret
             f = dict(r[4]) if r[0] == "agg" else {}
-            hasdata = [v for (t, v, s) in p.conds if t[0] == "loop" and t[2][2] == "bool"]
+            hasdata = [v for (t, v, s) in p.conds if carried_ty(t) == "bool"]
             if hasdata == [0]:
                 ok = _is_empty_vec(f.get(fl["frames"])) and _is_empty_vec(f.get(fl["imap"])) and \
                     f.get(fl["ov"], ("x",))[0] == "agg" and f[fl["ov"]][3] == "None"
